@@ -29,6 +29,7 @@ type Obligation struct {
 	Cover  bool // satisfiable-expected query (vacuity guard): Goal must be SAT together with Hyps
 	Result *SolveResult
 	Inputs []leaf // symbolic inputs for replay (name -> term)
+	root   *root
 }
 
 type Engine struct {
@@ -50,12 +51,13 @@ type Engine struct {
 	havocked map[string]bool // callees havocked without contract
 	notes    map[string]bool
 	wantPanics bool
+	usedAxioms map[string]bool
 }
 
 func NewEngine(repoDir string, specDir string) (*Engine, error) {
 	e := &Engine{tb: NewTB(), specs: NewSpecs(), funcs: map[string]*ssa.Function{}, initHeap: map[string]*Term{},
 		repoDir: repoDir, ssaPkgs: map[string]*ssa.Package{}, repoPkgs: map[string]bool{}, typeTags: map[string]*Term{},
-		tagNames: map[string]string{}, usedExt: map[string]bool{}, havocked: map[string]bool{}, notes: map[string]bool{}}
+		tagNames: map[string]string{}, usedAxioms: map[string]bool{}, usedExt: map[string]bool{}, havocked: map[string]bool{}, notes: map[string]bool{}}
 	e.sizes = types.SizesFor("gc", "amd64")
 	env := append(os.Environ(), "GOFLAGS=-mod=mod", "GOPROXY=off")
 	cfg := &packages.Config{Mode: packages.LoadAllSyntax | packages.NeedModule, Dir: repoDir, BuildFlags: []string{"-tags=verif"}, Env: env}
@@ -146,7 +148,27 @@ func (e *Engine) relName(fn *ssa.Function) string {
 	} else if fn.Origin() != nil && fn.Origin().Pkg != nil {
 		from = fn.Origin().Pkg.Pkg
 	}
-	return fn.RelString(from)
+	s := fn.RelString(from)
+	if len(fn.TypeArgs()) > 0 && strings.HasSuffix(s, "]") {
+		// instantiated generic: drop the trailing type-argument list of the method/function name
+		depth := 0
+		for i := len(s) - 1; i >= 0; i-- {
+			if s[i] == ']' {
+				depth++
+			} else if s[i] == '[' {
+				depth--
+				if depth == 0 {
+					// keep it if it belongs to the receiver type, i.e. is followed by ")."
+					if !strings.HasPrefix(s[i:], "[") || strings.Contains(s[i:], ").") {
+						break
+					}
+					s = s[:i]
+					break
+				}
+			}
+		}
+	}
+	return s
 }
 
 func (e *Engine) forceInstance(sp *ssa.Package, key string) *ssa.Function {
